@@ -4,6 +4,7 @@ import (
 	"flag"
 	"fmt"
 	"os"
+	"path/filepath"
 	"sort"
 	"strings"
 	"time"
@@ -85,6 +86,11 @@ func cmdVC(args []string) {
 	W, err := LoadWorld(repoDir())
 	if err != nil {
 		die("load: %v", err)
+	}
+	if !*dump {
+		// private query directory (concurrent runs must not share query files); -dump keeps the shared one for inspection
+		outDir = filepath.Join(verifDir(), "out", "vc", fmt.Sprintf("vc.%d", os.Getpid()))
+		defer os.RemoveAll(outDir)
 	}
 	var fnames, lnames []string
 	for _, a := range fs.Args() {
@@ -196,7 +202,6 @@ func cmdList(args []string) {
 		fmt.Println(mark, n)
 	}
 }
-
 
 // cmdRac runs the runtime assertion check of the contracts against the real code on sampled inputs
 // (a sanity check of contracts and of assumed contracts; bounded, never counted as proved).
